@@ -1,10 +1,69 @@
 import Driver.Common
 import ScionTime.Model.Udp
+import ScionTime.Model.ScionQuic
 open Driver
+open ScionTime.ScionQuic in
+/-- `su`, `sheu`, … -/
+def parseQLayers? (s : String) : Option (List ScionTime.ScionQuic.Layer) :=
+  if s = "-" then some [] else
+  s.toList.mapM fun c =>
+    match c with
+    | 's' => some Layer.scion | 'h' => some .hbh | 'e' => some .e2e | 'u' => some .udp
+    | _ => none
+
+/-- `<type>:<hex>` | `err` | `-` -/
+def parseRev? (s : String) : Option (Option (Nat × List Nat)) :=
+  if s = "err" ∨ s = "-" then some none else
+  match s.splitOn ":" with
+  | [t, h] =>
+    match t.toNat?, parseHex? h with
+    | some t, some b => if t < 256 then some (some (t, b)) else none
+    | _, _ => none
+  | _ => none
+
+open ScionTime.ScionQuic in
+def fmtPkt (p : Pkt) : String :=
+  s!"pld={toHex p.payload} ia={p.ia} host={toHex p.host} port={p.port}"
+
+open ScionTime.ScionQuic in
+/-- quic.read side=srv|cli wire=<hex> dec= layers= sia= st= sa= sp= pt= path= pld= rev= buf= [xia= xhost= xport=] -/
+def quicRead (toks : List String) : String :=
+  match (["side", "wire", "dec", "layers", "sia", "st", "sa", "sp", "pt", "path", "pld", "rev", "buf"].mapM (kv? toks)) with
+  | some [side, wire, dec, layers, sia, st, sa, sp, pt, path, pld, rev, buf] =>
+    match parseHex? wire, parseBool? dec, parseQLayers? layers, sia.toNat?, st.toNat?, parseHex? sa, sp.toNat?,
+          pt.toNat?, parseHex? path with
+    | some _, some dec, some layers, some sia, some st, some sa, some sp, some pt, some path =>
+      match parseHex? pld, parseRev? rev, buf.toNat? with
+      | some pld, some rev, some buf =>
+        if st ≥ 16 ∨ sp ≥ 65536 ∨ pt ≥ 256 then "bad-op" else
+        let d : Dgram := ⟨dec, layers, sia, ⟨st, sa⟩, sp, pt, path, pld, rev⟩
+        if side = "srv" then
+          if toks.length ≠ 14 then "bad-op" else
+          match serverRead buf d with
+          | .ignore => "ok ignore"
+          | .deliver p t r => s!"ok deliver {fmtPkt p} path={t}:{toHex r}"
+          | .errPathReversal => "err path-reversal"
+          | .panic => "panic explicit:IP_called_on_non-IP_address"
+        else if side = "cli" then
+          if toks.length ≠ 17 then "bad-op" else
+          match (kv? toks "xia").bind (·.toNat?), (kv? toks "xhost").bind parseHex?, (kv? toks "xport").bind (·.toNat?) with
+          | some xia, some xhost, some xport =>
+            match clientRead ⟨xia, xhost, xport⟩ buf d with
+            | .ignore => "ok ignore"
+            | .deliver p => s!"ok deliver {fmtPkt p}"
+            | .panic => "panic explicit:IP_called_on_non-IP_address"
+          | _, _, _ => "bad-op"
+        else "bad-op"
+      | _, _, _ => "bad-op"
+    | _, _, _, _, _, _, _, _, _ => "bad-op"
+  | _ => "bad-op"
 
 /-- ops:
   udp.oob <hex>   -> ok <sec> <nsec> | err unexpected-data | err not-found | panic …
   net.* / cli.* … -> ok alive   (socket-level liveness, see harness/cmd/c08net)
+  quic.read side=srv|cli wire= dec= layers= sia= st= sa= sp= pt= path= pld= rev= buf= [xia= xhost= xport=]
+                  -> ok ignore | ok deliver pld= ia= host= port= [path=<t>:<hex>]   (net/scion/quic.go ReadFrom, harness/cmd/c08quic)
+  quic.live …     -> ok alive   (the real NTS-KE-over-QUIC server still completes a key exchange)
 -/
 def step (_ : Unit) (toks : List String) : Unit × String :=
   match toks with
@@ -19,10 +78,11 @@ def step (_ : Unit) (toks : List String) : Unit × String :=
       | .panicExplicit => ((), "panic explicit:unexpected_timestamping_behavior")
       | .fuel => ((), "model-out-of-fuel")
     | none => ((), "bad-op")
+  | "quic.read" :: rest => ((), quicRead ("quic.read" :: rest))
   | op :: _ :: _ =>
     -- socket-level ops (harness/cmd/c08net): the model's claim for EVERY input is that the
     -- process that received it is still alive and serving afterwards
-    if op.startsWith "net." || op.startsWith "cli." then ((), "ok alive") else ((), "bad-op")
+    if op.startsWith "net." || op.startsWith "cli." || op = "quic.live" then ((), "ok alive") else ((), "bad-op")
   | _ => ((), "bad-op")
 
 def main : IO Unit := run () step
